@@ -211,7 +211,7 @@ Qed.
 (* plain variations at two points where no member vanishes count the roots strictly between them *)
 Lemma chain_points ch (F : {poly R}) ya yb : F != 0 -> pposs ch (mods F F^`()) -> ya < yb ->
   all (fun p => ~~ root p ya) ch -> all (fun p => ~~ root p yb) ch ->
-  (changes (ev ya ch) - changes (ev yb ch))%N = size (roots F ya yb).
+  changes (ev ya ch) = (changes (ev yb ch) + size (roots F ya yb))%N.
 Proof.
 move=> F0 st yayb nra nrb.
 have tr y : all (fun p => ~~ root p y) ch -> all (fun p => ~~ root p y) (mods F F^`()).
@@ -223,8 +223,7 @@ rewrite /changes_itv_mods /changes_itv_poly /changes_horner -/(ev ya _) -/(ev yb
 rewrite -(changes_sgr (ev ya _)) -(changes_sgr (ev yb _)) -!(pposs_ev _ st) !changes_sgr.
 have := taq_cindex ya yb F 1; rewrite mulr1 taq1_size => <-.
 move: (changes (ev ya ch)) (changes (ev yb ch)) (size _) => m n k h.
-have le : (n <= m)%N by rewrite -lez_nat -subr_ge0 h.
-by apply/eqP; rewrite -eqz_nat -subzn // h.
+by apply/eqP; rewrite -eqz_nat PoszD -h addrC subrK.
 Qed.
 
 Lemma prod_nonroot ch y : ~~ root (\prod_(p <- ch) p) y -> all (fun p => ~~ root p y) ch.
@@ -259,7 +258,7 @@ Qed.
    member (= gcd(F, F') up to a constant) does not vanish at a and b *)
 Theorem sturm_chain_itv ch (F : {poly R}) a b : F != 0 -> pposs ch (mods F F^`()) -> Rlinks ch ->
   a < b -> ~~ root (last 0 ch) a -> ~~ root (last 0 ch) b ->
-  (Vskip a ch - Vskip b ch)%N = size [seq x <- rootsR F | a < x <= b].
+  Vskip a ch = (Vskip b ch + size [seq x <- rootsR F | (a < x <= b)%R])%N.
 Proof.
 move=> F0 st lk ab lsta lstb.
 have nzs : all (fun p => p != 0) ch := pposs_neq0 st (mods_neq0 _ _).
@@ -288,9 +287,8 @@ rewrite -(changes_sgr (ev ya _)) -(changes_sgr (ev yb _)) -!(pposs_ev _ st) !cha
 have := taq_cindex ya yb F 1; rewrite mulr1 taq1_size => <-.
 move=> hh.
 have E : roots F ya yb = [seq x <- rootsR F | a < x <= b]; last first.
-  rewrite -E; move: hh; move: (changes _) (changes _) (size _) => m n k h.
-  have le : (m <= n)%N by rewrite -lez_nat -subr_ge0 h.
-  by apply/eqP; rewrite -eqz_nat -subzn // h.
+  rewrite -E; move: hh; move: (changes (ev ya ch)) (changes (ev yb ch)) (size _) => m n k h.
+  by apply/eqP; rewrite -eqz_nat PoszD -h addrC subrK.
 have noa z : a < z <= ya -> ~~ root F z.
   move=> /andP[az zya]; have zin : z \in neighpr P a b.
     by move: yain; rewrite /neighpr !in_itv /= az /= => /andP[_]; exact: le_lt_trans.
@@ -346,7 +344,7 @@ Qed.
 (* half lines *)
 Theorem sturm_chain_minf ch (F : {poly R}) b : F != 0 -> pposs ch (mods F F^`()) -> Rlinks ch ->
   ~~ root (last 0 ch) b ->
-  (changes_minfty ch - Vskip b ch)%N = size [seq x <- rootsR F | x <= b].
+  changes_minfty ch = (Vskip b ch + size [seq x <- rootsR F | (x <= b)%R])%N.
 Proof.
 move=> F0 st lk lst.
 have nzs : all (fun p => p != 0) ch := pposs_neq0 st (mods_neq0 _ _).
@@ -366,7 +364,7 @@ have nr0 y : y <= y0 -> ~~ root P y.
   by have := le_lt_trans (le_trans yy0 y0cb) h; rewrite ltxx.
 rewrite (changes_minfty_ev nzs nr0).
 rewrite (chain_points F0 st (lt_trans y0b byb) (prod_nonroot (nr0 _ (lexx _))) nrb).
-congr size; apply: lt_sorted_eq; first exact: sorted_roots.
+congr (_ + size _)%N; apply: lt_sorted_eq; first exact: sorted_roots.
   by apply: sorted_filter (sorted_roots _ _ F); exact: lt_trans.
 move=> z; rewrite mem_filter in_rootsR // in_roots F0 andbT in_itv /= andbC.
 case rz: (root F z); rewrite ?andbF //= !andbT.
@@ -378,7 +376,7 @@ Qed.
 
 Theorem sturm_chain_pinf ch (F : {poly R}) a : F != 0 -> pposs ch (mods F F^`()) -> Rlinks ch ->
   ~~ root (last 0 ch) a ->
-  (Vskip a ch - changes_pinfty ch)%N = size [seq x <- rootsR F | a < x].
+  Vskip a ch = (changes_pinfty ch + size [seq x <- rootsR F | (a < x)%R])%N.
 Proof.
 move=> F0 st lk lst.
 have nzs : all (fun p => p != 0) ch := pposs_neq0 st (mods_neq0 _ _).
@@ -401,7 +399,7 @@ have nr1 y : y1 <= y -> ~~ root P y.
 rewrite (changes_pinfty_ev nzs nr1).
 have yay1 : ya < y1 := lt_trans ya1 ay1'.
 rewrite (chain_points F0 st yay1 nra (prod_nonroot (nr1 _ (lexx _)))).
-congr size; apply: lt_sorted_eq; first exact: sorted_roots.
+congr (_ + size _)%N; apply: lt_sorted_eq; first exact: sorted_roots.
   by apply: sorted_filter (sorted_roots _ _ F); exact: lt_trans.
 move=> z; rewrite mem_filter in_rootsR // in_roots F0 andbT in_itv /= andbC.
 case rz: (root F z); rewrite ?andbF //= !andbT.
@@ -467,7 +465,9 @@ have st := chain_okP R ok; have lk := chain_ok_Rlinks ok.
 rewrite /count_roots_oc !sturm_var_fin //.
 have lastE : last 0 (map PR (sturm_chain f)) = PR (last [::] (sturm_chain f)).
   by rewrite -(PR_nil R) last_map.
-by apply: sturm_chain_itv => //; rewrite lastE root_rat.
+have nra : ~~ root (last 0 (map PR (sturm_chain f))) (QR an ad) by rewrite lastE root_rat.
+have nrb : ~~ root (last 0 (map PR (sturm_chain f))) (QR bn bd) by rewrite lastE root_rat.
+by rewrite (sturm_chain_itv F0 st lk ab nra nrb) minusE addKn.
 Qed.
 
 
@@ -484,7 +484,8 @@ have nz : all (fun p => PR p != 0) (sturm_chain f).
 rewrite /count_roots_oc sturm_var_fin // (sturm_var_minf nz).
 have lastE : last 0 (map PR (sturm_chain f)) = PR (last [::] (sturm_chain f)).
   by rewrite -(PR_nil R) last_map.
-by apply: sturm_chain_minf => //; rewrite lastE root_rat.
+have nrb : ~~ root (last 0 (map PR (sturm_chain f))) (QR bn bd) by rewrite lastE root_rat.
+by rewrite (sturm_chain_minf F0 st lk nrb) minusE addKn.
 Qed.
 
 Theorem count_roots_oc_pinf (f : seq Z) (an ad : Z) : ~~ pis_zero f -> (0 < ad)%R ->
@@ -500,7 +501,8 @@ have nz : all (fun p => PR p != 0) (sturm_chain f).
 rewrite /count_roots_oc sturm_var_fin // (sturm_var_pinf nz).
 have lastE : last 0 (map PR (sturm_chain f)) = PR (last [::] (sturm_chain f)).
   by rewrite -(PR_nil R) last_map.
-by apply: sturm_chain_pinf => //; rewrite lastE root_rat.
+have nra : ~~ root (last 0 (map PR (sturm_chain f))) (QR an ad) by rewrite lastE root_rat.
+by rewrite (sturm_chain_pinf F0 st lk nra) minusE addKn.
 Qed.
 
 Lemma chain_last_root f x : ~~ pis_zero f -> root (PR (last [::] (sturm_chain f))) x ->
@@ -545,6 +547,86 @@ Proof.
 move=> f0 simple ad0 bd0 ab; apply: count_roots_oc_fin => //.
   by rewrite -(root_rat R) //; apply/negP => /(chain_last_root f0) [/simple /negP].
 by rewrite -(root_rat R) //; apply/negP => /(chain_last_root f0) [/simple /negP].
+Qed.
+
+
+(* ---- libpoly's own sign-change counter and interval count on its own Sturm sequence (faithful model) *)
+Definition sgn3 (z : Z) : bool := [|| z == 0, z == 1 | z == -1].
+
+Lemma lp_sign_changes_auxP (signs : seq Z) (prev : Z) (cnt maxc : nat) :
+  all sgn3 signs -> sgn3 prev -> (cnt + size signs <= maxc)%N ->
+  lp_sign_changes_aux signs prev cnt maxc = (cnt + sign_var_aux prev signs)%N.
+Proof.
+elim: signs prev cnt => [|s signs IH] prev cnt /=; first by rewrite addn0.
+move=> /andP[s3 ss] p3 le.
+have -> : Nat.ltb cnt maxc by apply/Nat.ltb_lt; move: (size signs) le => k le; lia.
+have le' : (cnt + size signs <= maxc)%N by move: (size signs) le => k le; lia.
+have le'' : (cnt.+1 + size signs <= maxc)%N by move: (size signs) le => k le; lia.
+rewrite !ZeqbP.
+case/or3P: p3 => /eqP ->; case/or3P: (s3) => /eqP -> /=; rewrite ?IH ?addnS ?addSn //.
+Qed.
+
+Lemma psgn_at_sgn3 p x : sgn3 (psgn_at p x).
+Proof.
+rewrite /sgn3; case: x => [|a b|] /=; rewrite /psgn_minf /psgn_pinf /psgn_at_rat.
+- by case: Nat.odd; case: (Zsgn_cases (plc p)) => ->.
+- by case: (Zsgn_cases (peval_hom_aux p a b).1) => ->.
+- by case: (Zsgn_cases (plc p)) => ->.
+Qed.
+
+Lemma lp_sign_changesE (S : seq (seq Z)) x : lp_sign_changes S x (size S) = sturm_var S x.
+Proof.
+rewrite /lp_sign_changes /sturm_var /sign_var lp_sign_changes_auxP ?add0n ?size_map //.
+by rewrite all_map; apply/allP => p _ /=; exact: psgn_at_sgn3.
+Qed.
+
+(* the interval count of sturm_seqence_count_roots (repaired model) on libpoly's own Sturm sequence of a
+   non-constant f is the number of distinct real roots of f in J, for all four open/closed combinations,
+   whenever the last member of the sequence does not vanish at the two ends (always true for square-free f) *)
+Theorem lp_count_roots_sturm (f : seq Z) (J : ri_itv) : (1 < size (PR f))%N ->
+  (0 < qlo_d J)%R -> (0 < qhi_d J)%R -> QR (qlo_n J) (qlo_d J) < QR (qhi_n J) (qhi_d J) ->
+  psgn_at_rat (last [::] (lp_sturm_sequence f)) (qlo_n J) (qlo_d J) != 0 ->
+  psgn_at_rat (last [::] (lp_sturm_sequence f)) (qhi_n J) (qhi_d J) != 0 ->
+  lp_count_roots_gen true (lp_sturm_sequence f) (Some J)
+  = Z.of_nat (count (@in_qitv R J) (rootsR (PR f))).
+Proof.
+move=> sf l0 h0 lh la lb.
+have [G0 rE st lk] := lp_sturm_sequence_chain sf.
+have hdE : List.hd [::] (lp_sturm_sequence f) = ppp f by [].
+rewrite -rE -hdE; apply: lp_count_roots_repaired_at => //.
+rewrite !lp_sign_changesE !sturm_var_fin // hdE.
+have lastE : last 0 (map PR (lp_sturm_sequence f)) = PR (last [::] (lp_sturm_sequence f)).
+  by rewrite -(PR_nil R) last_map.
+have nra : ~~ root (last 0 (map PR (lp_sturm_sequence f))) (QR (qlo_n J) (qlo_d J)) by rewrite lastE root_rat.
+have nrb : ~~ root (last 0 (map PR (lp_sturm_sequence f))) (QR (qhi_n J) (qhi_d J)) by rewrite lastE root_rat.
+rewrite (sturm_chain_itv G0 st lk lh nra nrb) -size_filter.
+by move: (Vskip _ _) (size _) => m n; lia.
+Qed.
+
+
+Lemma lp_last_root f x : (1 < size (PR f))%N -> root (PR (last [::] (lp_sturm_sequence f))) x -> root (PR f) x.
+Proof.
+move=> sf lx; have [G0 rE st lk] := lp_sturm_sequence_chain sf.
+have F0 : PR f != 0 by rewrite -size_poly_gt0 (ltn_trans _ sf).
+have dv := Rlinks_last_dvd lk.
+have lastE : last 0 (map PR (lp_sturm_sequence f)) = PR (last [::] (lp_sturm_sequence f)).
+  by rewrite -(PR_nil R) last_map.
+have d0 : PR (last [::] (lp_sturm_sequence f)) %| PR (ppp f).
+  by move: dv; rewrite lastE /lp_sturm_sequence [all _ _]/= => /andP[].
+have : root (PR (ppp f)) x := dvdp_root_tr d0 lx.
+by rewrite -in_rootsR // rE in_rootsR.
+Qed.
+
+(* sufficient: f does not vanish at the two ends *)
+Theorem lp_count_roots_sturm_nonroot (f : seq Z) (J : ri_itv) : (1 < size (PR f))%N ->
+  (0 < qlo_d J)%R -> (0 < qhi_d J)%R -> QR (qlo_n J) (qlo_d J) < QR (qhi_n J) (qhi_d J) ->
+  psgn_at_rat f (qlo_n J) (qlo_d J) != 0 -> psgn_at_rat f (qhi_n J) (qhi_d J) != 0 ->
+  lp_count_roots_gen true (lp_sturm_sequence f) (Some J)
+  = Z.of_nat (count (@in_qitv R J) (rootsR (PR f))).
+Proof.
+move=> sf l0 h0 lh fa fb; apply: lp_count_roots_sturm => //.
+  by apply: contra fa; rewrite -!(root_rat R) //; exact: lp_last_root.
+by apply: contra fb; rewrite -!(root_rat R) //; exact: lp_last_root.
 Qed.
 
 End RefCount.
